@@ -120,6 +120,35 @@ CLAIMED.update({
               "5/C04", "The all-intervals-below-threshold case violates the partition clause on the real code (known finding F19, witness theorem C04_all_short_refuted)."),
 })
 
+CLAIMED.update({
+    "C01": _c("Proof (text layer): Props/C01.v shows for EVERY label and name (quotes, runs of quotes at the start, middle and end, "
+              "newlines, '=', digits) that un-doubling the doubled form is the identity, that doubling commutes with trimming, that the "
+              "short-form text-row reader stops exactly at the closing quote and returns the label, that number rows come back as "
+              "written, that the entry loops of an interval / point tier block of any length return exactly the written entries, and "
+              "that the long-form greedy quoted group is the escaped label.  The whole-file round trip, the bit-identity / near-integer "
+              "clause for times, the fixed-point clause and the JSON formats are decided on the real Textgrid.save / openTextgrid; "
+              "written text and parsed dictionary are compared with the writer and reader models inside Coq.",
+              "Coq proof (strong induction over quote runs, list induction) + in-Coq differential correspondence of writer and reader models + round trip on the implementation",
+              "5/C01", "partial: whole-file composition (chunking by keyword, header lines) and the number layer (repr/float round trip, isclose 1e-14) are evaluated, not proved; numbers are opaque tokens."),
+    "C02": _c("Proof: Props/C02.v shows that the specification reader decodes the string token written for any name or label to exactly "
+              "that string (format keywords included), that every quote inside a written string is doubled, and that with blank "
+              "filling on the written entries of a well-formed interval tier are an ascending gap-free overlap-free partition of "
+              "[xmin,xmax] (with and without the threshold).  Every generated textgrid is written in the four formats by the real "
+              "code; the text is compared with the writer model and decoded by the specification reader inside Coq (sizes, nothing "
+              "left over, content = prepared in-memory data); a Python twin of that reader and the README JSON schemas give the "
+              "numeric partition clause and 'all four formats decode to identical content'.",
+              "Coq proof (tokenizer lemma by list induction, partition lemmas) + specification reader evaluated inside Coq on the implementation's output",
+              "5/C02", "The reference reader is my reading of Praat's file-format page and defines well-formedness here.  Known finding F19 (all intervals below the threshold) is reported, not suppressed otherwise."),
+    "C03": _c("Proof: Props/C03.v shows CRLF invariance of both text readers, that blank removal omits exactly the empty-labelled "
+              "entries and nothing else, the duplicate-name policy (unique names, one per tier; untouched when already unique; error "
+              "mode raises iff a name repeats) and that long and short text fields decode every label identically.  Files produced by "
+              "an independent writer (Praat long, Praat short, ELAN long, both JSON schemas x utf-8, utf-8-sig, utf-16 LE/BE x LF/CRLF, "
+              "plain and exponent numbers, -0 starts, empty tiers, duplicates) are opened with the real openTextgrid and compared with "
+              "the data they encode; the reader model and the name-policy model are compared with the implementation inside Coq.",
+              "Coq proof (list induction) + differential correspondence of the reader models + independent-writer oracle on the implementation",
+              "5/C03", "partial: codecs, BOM handling, universal newlines, json.loads and float() are runtime library behaviour (exercised, not modelled); the whole-file reader composition is evaluated."),
+})
+
 PENDING = {}
 
 
